@@ -1,4 +1,5 @@
 import ApolloModel.Proofs.ParserTree31
+import ApolloModel.Proofs.ParserTreeDef13
 import ApolloModel.Proofs.AstDocument3
 import ApolloModel.Proofs.AstText7
 import ApolloModel.Proofs.AstText8
@@ -655,5 +656,70 @@ theorem document_pipeline_with_type_system (Q : List Parse.Tok → List Elem →
   Parse.parseDocument_fromCst Q T rl src root h herr
 
 end Pipeline
+
+section PipelineTypeSystem
+open Apollo.Parse Apollo.Rowan
+
+/-- **Stage (v), type-system definitions and extensions: conversion.**  On the tree `DefTree l ed` of a loose
+    type-system definition or extension `l` (any of the eight definitions — schema, scalar, object, interface, union,
+    enum, input object, directive — and the seven extensions), `impl Convert for cst::Definition` of from_cst.rs
+    (fuel + 1 ≥ the size of the node) succeeds with `looseConv l`: descriptions through the C06 decoder, names
+    validated, a leading separator not represented, a root operation type without its named type dropped. -/
+theorem type_system_definition_converts (m : Nat) (l : Parse.LooseDef) (ed : Elem) (h : FromCst.DefTree l ed)
+    (hs : FromCst.size ed ≤ m + 1) (R : List FromCst.Loc) (o : Nat) (hp : ∀ y ∈ nameRanges ed o, y ∈ R) :
+    ∃ lg, FromCst.cDefinition m ⟨(ed, o), hp⟩ = some (FromCst.looseConv l, lg) :=
+  FromCst.cDefinition_defTree m l ed h hs R o hp
+
+/-- **Stage (v), type-system definitions and extensions: the pipeline.**  `document()` dispatches on the current
+    token `t`; when the selecting text is a type-system keyword (`TsSel`: `t` reads one of the eight definition
+    keywords, or `t` is a description and the next significant token does, or `t` reads `extend` and the next
+    significant token one of the seven extension keywords) and the run of the dispatcher adds no error, then
+
+    * it consumed the tokens `l.toks` of ONE loose definition `l` (the optional keyword IS there) and appended ONE
+      element `ed` besides junk, the tree `DefTree l ed`;
+    * `cDefinition` on `ed` returns `looseConv l`;
+    * when `l` has neither of the two deviations (`l.strict = some d`: no leading `&`/`|`, every root operation type
+      has its named type), `looseConv l = d`, the consumed tokens are `tDefinition false d` — the tokens the
+      serializer writes for `d` — `d` is well-formed (`wfDefinition`), and the reference parser reads those tokens
+      back to `d` (`pDefinition`), whatever definition or end of input follows. -/
+theorem type_system_definition_pipeline (n : Nat) (s s' : PState) (t : Parse.Tok) (rest : List Parse.Tok) (ks : List String)
+    (st : Parse.St s) (hc : s.current = some t) (ht : Parse.Toks s = t :: rest) (hsel : Parse.TsSel t rest ks)
+    (h : (Parse.documentDispatch n t.kind).run s = .ok () s') (hnd : ¬ Parse.Doomed s') :
+    ∃ cs added l ed, Parse.Toks s = cs ++ Parse.Toks s' ∧ s'.builder.children = s.builder.children ++ added ∧
+      l.kws = ks ∧ (Parse.sig cs).map Parse.astOfV = l.toks.map some ∧ l.wf = true ∧ Parse.sigE added = [ed] ∧
+      FromCst.DefTree l ed ∧
+      (∀ (m : Nat), FromCst.size ed ≤ m + 1 → ∀ (R : List FromCst.Loc) (o : Nat) (hp : ∀ y ∈ nameRanges ed o, y ∈ R),
+        ∃ lg, FromCst.cDefinition m ⟨(ed, o), hp⟩ = some (FromCst.looseConv l, lg)) ∧
+      ∀ d, l.strict = some d →
+        FromCst.looseConv l = d ∧ l.toks = tDefinition false d ∧ wfDefinition d = true ∧
+        ∀ (f : Nat) (follow : List Ast.Tok), szDefinition d ≤ f → defFollow follow = true →
+          pDefinition f (tDefinition false d ++ follow) = some (d, follow) := by
+  obtain ⟨_, cs, added, h1, _, _, h4, h5⟩ := Parse.tr_typeSystemDefinition n s s' t rest ks st hc ht hsel h hnd
+  rcases h5 with ⟨l, ed, hk, h6, h7, h8, h9⟩ | f
+  · refine ⟨cs, added, l, ed, h1, h4, hk, h6, h7, h8, h9,
+      fun m hm R o hp => FromCst.cDefinition_defTree m l ed h9 hm R o hp, ?_⟩
+    intro d hd
+    have hwf := Parse.LooseDef.wf_strict l d hd h7
+    exact ⟨FromCst.looseConv_strict l d hd, Parse.LooseDef.toks_strict l d hd, hwf,
+      fun f follow hf hfo => definition_roundtrip d f follow hwf hf hfo⟩
+  · exact absurd f id
+
+/-- **Stage (v), the dispatcher of `document()`.**  An error-free run of the dispatcher on the current token `t`
+    either selected a type-system definition or extension (`TsSel`; then `type_system_definition_pipeline` applies — the
+    run consumed the tokens of ONE loose definition and appended its tree), or it IS a run of `fragment_definition`
+    (selecting text `fragment`) or of `operation_definition` (selecting text `query` / `mutation` / `subscription` / `{`)
+    from a state with the same token queue and the same tree builder — the two productions of stage (iv).  No other
+    case is error-free (every other branch ends in `err_and_pop`). -/
+theorem document_dispatch_cases (n : Nat) (s s' : PState) (t : Parse.Tok) (rest : List Parse.Tok) (st : Parse.St s)
+    (hc : s.current = some t) (ht : Parse.Toks s = t :: rest)
+    (h : (Parse.documentDispatch n t.kind).run s = .ok () s') (hnd : ¬ Parse.Doomed s') :
+    (∃ ks, Parse.TsSel t rest ks ∧ Parse.St s' ∧ Parse.TrRes Parse.NoE s s' (Parse.TsR ks)) ∨
+    (∃ sP d, Parse.St sP ∧ Parse.Toks sP = Parse.Toks s ∧ sP.builder = s.builder ∧ Parse.SelData t rest d ∧
+      ((d = "fragment".toList ∧ (Parse.fragmentDefinition n).run sP = .ok () s') ∨
+       ((d = "query".toList ∨ d = "mutation".toList ∨ d = "subscription".toList ∨ d = "{".toList) ∧
+         (Parse.operationDefinition n).run sP = .ok () s'))) :=
+  Parse.documentDispatch_cases n s s' t rest st hc ht h hnd
+
+end PipelineTypeSystem
 
 end Apollo.C08
